@@ -23,6 +23,19 @@ structure Ctx where
   preserve : Bool
   width : Int
 
+/-- The link list (`*ctx.links`) plus a ghost component: for every numbered element, the number
+    it prints and its own target, in the order they are numbered.  The ghost is written at
+    exactly the places where the number is handed to `style.Link` / `style.LinkBlock`; it has
+    no influence on the text or the links (property C12). -/
+structure LinkSt where
+  links : List Str := []
+  ghost : List (Nat × Str) := []
+
+/-- `*ctx.links = append(*ctx.links, link)` and the number read off `len(*ctx.links)`. -/
+def LinkSt.push (s : LinkSt) (link : Str) : LinkSt × Nat :=
+  let links := s.links ++ [link]
+  ({ links := links, ghost := s.ghost ++ [(links.length, link)] }, links.length)
+
 /-- `getAttribute` (first match, scrubbed). -/
 def getAttribute (name : Str) (attrs : List (Str × Str)) : Str :=
   match attrs.find? (fun a => a.1 = name) with
@@ -57,6 +70,16 @@ def mergeText (lhs rhs : Str) : Str :=
 /-- `block`. -/
 def block (t : Str) : Str := '\n' :: '\n' :: (trim isSpNl t ++ ['\n', '\n'])
 
+/-- `strings.Repeat(string(c), n)`: panics for a negative count. -/
+def goRepeat (c : Char) (n : Int) : Except Panic Str :=
+  if n < 0 then .error .negativeRepeat else .ok (rep c n.toNat)
+
+/-- The `hr` case: `if ctx.width < 0 { return block("") }; return block(strings.Repeat("⎯", ctx.width))`.
+    The only `strings.Repeat` with a content-dependent count in the renderer; `C06.hr_no_panic`
+    shows the error branch is dead. -/
+def hrText (w : Int) : Except Panic Str :=
+  if w < 0 then .ok (block []) else (goRepeat '⎯' w).map block
+
 /-- `situationalWrap` (with the no-room guard). -/
 def situationalWrap (t : Str) (ctx : Ctx) : Str :=
   if ctx.width < 1 then t
@@ -73,7 +96,7 @@ def tagIn (tag : Str) (l : List String) : Bool := l.any fun s => s.toList = tag
 mutual
 
 /-- `renderNode`; returns the text and the extended link list. -/
-def renderNode (c : Colors) (n : Node) (ctx : Ctx) (parentLi : Bool) (links : List Str) : Str × List Str :=
+def renderNode (c : Colors) (n : Node) (ctx : Ctx) (parentLi : Bool) (links : LinkSt) : Str × LinkSt :=
   match n with
   | .other => ([], links)
   | .text data =>
@@ -83,10 +106,9 @@ def renderNode (c : Colors) (n : Node) (ctx : Ctx) (parentLi : Bool) (links : Li
       let link := getAttribute "href".toList attrs
       if link.isEmpty then renderChildren c kids ctx (tag = "li".toList) links
       else
-        let links1 := links ++ [link]
-        let number := links1.length
-        let r := renderChildren c kids ctx false links1
-        (Style.link c r.1 number, r.2)
+        let p := links.push link
+        let r := renderChildren c kids ctx false p.1
+        (Style.link c r.1 p.2, r.2)
     else if tagIn tag ["s", "del"] then
       let r := renderChildren c kids ctx false links; (Style.strikethrough r.1, r.2)
     else if tag = "code".toList then
@@ -124,16 +146,18 @@ def renderNode (c : Colors) (n : Node) (ctx : Ctx) (parentLi : Bool) (links : Li
       (block (Style.header c (situationalWrap r.1 ctx') k), r.2)
     | none =>
     if tag = "hr".toList then
-      if ctx.width < 0 then (block [], links) else (block (rep '⎯' ctx.width.toNat), links)
+      match hrText ctx.width with
+      | .ok t => (t, links)
+      | .error _ => ([], links)     -- unreachable (C06.hr_no_panic); the Go code would panic here
     else if tagIn tag ["img", "video", "audio", "iframe"] then
       let alt0 := getAttribute (if tag = "iframe".toList then "title".toList else "alt".toList) attrs
       let link := getAttribute "src".toList attrs
       let alt := if alt0.isEmpty then link else alt0
       if link.isEmpty then (block alt, links)
       else
-        let links1 := links ++ [link]
+        let p := links.push link
         let ctx' := { ctx with width := ctx.width - 2 }
-        (block (Style.linkBlock c (situationalWrap alt ctx') links1.length), links1)
+        (block (Style.linkBlock c (situationalWrap alt ctx') p.2), p.1)
     else
       -- `bad`: an unknown tag is shown in red around its children
       let r := renderChildren c kids ctx false links
@@ -141,10 +165,10 @@ def renderNode (c : Colors) (n : Node) (ctx : Ctx) (parentLi : Bool) (links : Li
 
 /-- `renderChildren`: fold with `mergeText`.  `selfLi` says whether the node whose children these
     are is an `li` (it is the `Parent` of the children). -/
-def renderChildren (c : Colors) (kids : List Node) (ctx : Ctx) (selfLi : Bool) (links : List Str) : Str × List Str :=
+def renderChildren (c : Colors) (kids : List Node) (ctx : Ctx) (selfLi : Bool) (links : LinkSt) : Str × LinkSt :=
   renderKids c kids ctx selfLi links []
 
-def renderKids (c : Colors) (kids : List Node) (ctx : Ctx) (selfLi : Bool) (links : List Str) (acc : Str) : Str × List Str :=
+def renderKids (c : Colors) (kids : List Node) (ctx : Ctx) (selfLi : Bool) (links : LinkSt) (acc : Str) : Str × LinkSt :=
   match kids with
   | [] => (acc, links)
   | k :: ks =>
@@ -152,16 +176,16 @@ def renderKids (c : Colors) (kids : List Node) (ctx : Ctx) (selfLi : Bool) (link
     renderKids c ks ctx selfLi r.2 (mergeText acc r.1)
 
 /-- `bulletedList`'s loop (`ctx` already narrowed by 2). -/
-def bulleted (c : Colors) (kids : List Node) (ctx : Ctx) (links : List Str) : Str × List Str :=
+def bulleted (c : Colors) (kids : List Node) (ctx : Ctx) (links : LinkSt) : Str × LinkSt :=
   bulletedKids c kids ctx links []
 
-def bulletedKids (c : Colors) (kids : List Node) (ctx : Ctx) (links : List Str) (acc : Str) : Str × List Str :=
+def bulletedKids (c : Colors) (kids : List Node) (ctx : Ctx) (links : LinkSt) (acc : Str) : Str × LinkSt :=
   match kids with
   | [] => (acc, links)
   | k :: ks =>
     match k with
     | .elem tag attrs gk =>
-      let r : Str × List Str :=
+      let r : Str × LinkSt :=
         if tag = "li".toList then renderNode c (.elem tag attrs gk) ctx false links
         else
           let rc := renderChildren c gk ctx false links
@@ -172,8 +196,29 @@ def bulletedKids (c : Colors) (kids : List Node) (ctx : Ctx) (links : List Str) 
 end
 
 /-- `renderWithLinks`. -/
-def renderWithLinks (c : Colors) (nodes : List Node) (width : Int) : Str × List Str :=
-  let r := renderKids c nodes ⟨false, width⟩ false [] []
+def renderFull (c : Colors) (nodes : List Node) (width : Int) : Str × LinkSt :=
+  let r := renderKids c nodes ⟨false, width⟩ false {} []
   (trim isSpNl (Ansi.wrap r.1 width), r.2)
+
+def renderWithLinks (c : Colors) (nodes : List Node) (width : Int) : Str × List Str :=
+  let r := renderFull c nodes width
+  (r.1, r.2.links)
+
+end Hypertext
+
+namespace Hypertext
+open Dom
+
+mutual
+/-- Element names contain no control character (they are lower-cased pieces of the already
+    scrubbed source; the tokenizer never decodes character references inside tag names). -/
+def tagsClean : Node → Bool
+  | .text _ => true
+  | .other => true
+  | .elem tag _ kids => (tag.all fun ch => !Uni.isControl ch) && tagsCleanList kids
+def tagsCleanList : List Node → Bool
+  | [] => true
+  | k :: ks => tagsClean k && tagsCleanList ks
+end
 
 end Hypertext
